@@ -329,6 +329,8 @@ assume func strconv.AppendFloat(dst []byte, v float64, fmt byte, prec int, bitSi
 
 func (f *fmt) fmtFloat(v float64, size int, verb rune, prec int)
   requires [C11] -1 <= prec && prec <= 1073741824
+  -- an infinity is written with its sign (or the space that stands for it): only NaN loses it
+  assert [C05,C09] num[0] != 73 before "f.pad(num)" #1
   loop 1 invariant [C11] digits + i >= 0
   loop 1 invariant memKeptExcept(f.intbuf) && (ref(num) == ref(f.intbuf) || fresh(num)) && fresh(tail) && ref(num) != ref(tail) && 1 <= i && len(num) >= 1 && num[0] < 128
   loop 2 invariant memKeptExcept(f.intbuf) && (ref(num) == ref(f.intbuf) || fresh(num)) && fresh(tail) && ref(num) != ref(tail) && len(num) >= 1 && num[0] < 128
